@@ -434,9 +434,10 @@ def _run_history(e, case, log, sb, probes):
             if snap not in versions[i]:
                 versions[i].append(snap)
         before = [s.pulls('data') for s in srcs]
-        it = iter(vs[vi])
+        it = None
         got = []
         try:
+            it = iter(vs[vi])
             if upto is None:
                 for r in it:
                     got.append(canon_row(r))
